@@ -57,7 +57,7 @@ func rangeCatalogue(fromH uint64, amount uint64) []Answer {
 		{Kind: "wrong-chain"}, {Kind: "invalid"},
 		{Kind: "garbage-body"}, {Kind: "empty-body"}, {Kind: "boom-body"},
 		{Kind: "malformed-frame"}, {Kind: "truncated-frame"}, {Kind: "oversized-prefix"}, {Kind: "random-bytes"},
-		{Kind: "not-found"}, {Kind: "unknown-status"}, {Kind: "invalid-status"},
+		{Kind: "not-found"}, {Kind: "unknown-status"}, {Kind: "negative-status"}, {Kind: "invalid-status"},
 		{Kind: "empty-close"}, {Kind: "extra"}, {Kind: "reset"}, {Kind: "hang"},
 		{Kind: "prefix", K: 1},
 	}
